@@ -158,3 +158,29 @@ Proof.
              (fragment_good_step prog input (proj1 (Facts input Hfit)) Hfr Hun (proj1 (Facts [] eq_refl)) Hnn) Hpl st0 eq_refl).
   rewrite SS. reflexivity.
 Qed.
+
+(* C05 on the grammar: no call panics, runs out of fuel or reports an internal error - Regex::new
+   answers Ok (or InvalidFlags for a flag string the specification rejects), is_match answers Ok, and for
+   a regex not flagged nullable tokenize and replace_all with a plain replacement answer Ok *)
+Theorem grammar_total xpath a fls input :
+  ok_a xpath a = true -> existsb (N.eqb 59) fls = false -> (N.of_nat (length input) < umax)%N ->
+  match spec_flags xpath fls with
+  | Valid sf =>
+      s_q sf = false -> s_x sf = false ->
+      exists re b, regex_new true xpath (show_a a) fls = Ok re /\ is_match re input = Ok b
+        /\ (r_nullable re = false ->
+            (exists l, tok_all (matches (r_prog re) input) input (S (S (S (length input)))) {| t_prev := Some 0; t_ms := st0 |} = Ok l)
+            /\ (forall repl, plain repl = true -> exists out, replace_all re input repl = Ok out))
+  | Invalid => regex_new true xpath (show_a a) fls = Err EInvalidFlags
+  | Unspecified => True
+  end.
+Proof.
+  intros Hok Hsep Hfit.
+  pose proof (grammar_end_to_end xpath a fls input Hok Hsep Hfit) as G1.
+  pose proof (grammar_tokens_are_spec_pieces xpath a fls input Hok Hsep Hfit) as G2.
+  destruct (spec_flags xpath fls) as [sf| |]; auto.
+  intros Hq Hx. destruct (G1 Hq Hx) as (re & r & E & _ & Em). destruct (G2 Hq Hx) as (re' & r' & E' & _ & T).
+  rewrite E in E'. injection E' as <-.
+  exists re, (spec_is_match sf input r). split; [exact E|]. split; [exact Em|].
+  intros Hn. destruct (T Hn) as (_ & Tk & Rp). split; [eauto|]. intros repl Hp. eexists. apply Rp. exact Hp.
+Qed.
